@@ -145,6 +145,8 @@ def children(t):
         return [t[2]]
     if tag == "aidx":
         return [t[2]]
+    if tag == "conv":
+        return [t[4]]
     if tag == "chain":
         return list(t[2])
     if tag == "sel":
@@ -246,6 +248,9 @@ class Renderer:
             return f"{r(t[2])}[{t[1]}]"
         if tag == "slice":
             return f"{r(t[3])}[{t[1]}:{t[2]}]"
+        if tag == "conv":
+            how = {"Signal": "Signal", "Temporary": "Temporary", "Value": "std.Value"}[t[1]]
+            return f"{how}[{ptype(t[2], t[3])}]({r(t[4])})"
         if tag == "dyn":
             return f"{r(t[1])}[{r(t[2])}]"
         if tag == "aconst":
@@ -287,8 +292,8 @@ class Renderer:
         probe tags: (ctx, i) with ctx 'c' / 's'."""
         case = self.case
         L = ["from __future__ import annotations", "import cohdl",
-             "from cohdl import Entity, Port, Bit, BitVector, Unsigned, Signed, Signal, Array, Null, Full, op, std, "
-             "select_with, enum", "", "SINK = []", "", "", "@cohdl.pyeval", "def probe(ctx, i, v):",
+             "from cohdl import Entity, Port, Bit, BitVector, Unsigned, Signed, Signal, Temporary, Array, Null, Full, op, "
+             "std, select_with, enum", "", "SINK = []", "", "", "@cohdl.pyeval", "def probe(ctx, i, v):",
              "    SINK.append((ctx, i, v))", ""]
         enums = sorted({p[2] for p in case["ports"] if p[1] == "enum"} | {ty[1] for ty in types.values() if ty[0] == "enum"}
                        | set(self._enum_consts(idxs)))
@@ -368,6 +373,19 @@ def _lits_for(w):
     return out
 
 
+CONV_HOWS = ("Signal", "Temporary", "Value")
+
+
+def conv_targets(ty):
+    """target types of the local conversions T(x) the C05 statement classifies as value preserving"""
+    k, w = ty
+    if k == "u":
+        return [("u", w), ("u", w + 1), ("u", w + 3), ("s", w + 1), ("s", w + 2), ("bv", w)]
+    if k == "s":
+        return [("s", w), ("s", w + 1), ("s", w + 3), ("bv", w)]
+    return [("u", w), ("s", w)]
+
+
 def unary_forms(x, ty):
     """all 1-operator trees over the operand tree x of static type ty (legal per model typing is checked by caller)."""
     k, w = ty
@@ -382,6 +400,10 @@ def unary_forms(x, ty):
     if k == "s":
         out.append(["abs", x])
     if k in rv.VEC:
+        hows = CONV_HOWS if is_leaf(x) else CONV_HOWS[:2]
+        for ck, cw in conv_targets(ty):
+            for how in hows:
+                out.append(["conv", how, ck, cw, x])
         out += [[v, x] for v in VIEWS]
         out += [["anyv", x], ["allv", x]]
         for i in range(w):
@@ -453,8 +475,15 @@ def inner_cells(mode, W):
     if mode == "all":
         return cells_1op(W)
     lits = (1, -1, 2) if mode == "rep" else ()  # 'repn': no literal inside the inner operator (except shift counts)
-    return [(p, t) for p, t in cells_1op([2])
-            if t[0] in SHIFT or all(n in lits for n in _tree_lits(t))]
+    out, nconv = [], 0
+    for p, t in cells_1op([2]):
+        if t[0] == "conv":  # one construction per (source, target) pair, rotating
+            nconv += 1
+            if mode != "rep" and t[1] != CONV_HOWS[((nconv - 1) // 3) % 3]:
+                continue
+        if t[0] in SHIFT or all(n in lits for n in _tree_lits(t)):
+            out.append((p, t))
+    return out
 
 
 def cells_2op(W, inner="rep"):
@@ -467,6 +496,8 @@ def cells_2op(W, inner="rep"):
         if rt is None or rt[0] == "int":
             continue
         for t in unary_forms(t1, rt):
+            if t[0] == "conv" and inner == "repn" and (t[1] != "Temporary" or t[3] != rt[1] + 1):
+                continue  # quick: one widening conversion per kind of an operator result
             if vx.static_type(t, pt) is not None:
                 out.append((ports, t))
         for decl, leaf in _other_leaves(rt, W, "c"):
@@ -684,7 +715,7 @@ class _Gen:
     # productions per result kind
     def p_u(self, w):
         p = ["leaf", "addsub", "addsub", "bitw", "inv", "shift", "shift", "view", "modrem", "div", "ifx", "sel",
-             "resize", "aelem", "lit_arith"]
+             "resize", "aelem", "lit_arith", "conv"]
         if w >= 2:
             p += ["mul", "mul"]
         if self.chance(0.01):
@@ -693,13 +724,13 @@ class _Gen:
 
     def p_s(self, w):
         p = ["leaf", "addsub", "addsub", "bitw", "inv", "shift", "shift", "view", "modrem", "div", "ifx", "sel",
-             "resize", "aelem", "lit_arith", "neg", "abs"]
+             "resize", "aelem", "lit_arith", "neg", "abs", "conv", "conv"]
         if w >= 2:
             p += ["mul", "mul"]
         return p
 
     def p_bv(self, w):
-        p = ["leaf", "bitw", "inv", "view", "slice", "ifx", "sel", "aelem"]
+        p = ["leaf", "bitw", "inv", "view", "slice", "ifx", "sel", "aelem", "conv"]
         if w >= 2:
             p += ["concat", "concat"]
         return p
@@ -769,6 +800,19 @@ class _Gen:
         if self.chance(0.5):
             return [o, self.sub(ty, d), ["lit", self.draw(self.st.integers(0, min(w + 2, 70)))]]
         return [o, self.sub(ty, d), self.sub(("u", self.draw(self.st.integers(1, 4))), d)]
+
+    def mk_conv(self, ty, d):
+        k, w = ty
+        if k == "bv":
+            src = (self.pick(["u", "s"]), w)
+        elif k == "u":
+            src = self.pick([("u", self.draw(self.st.integers(1, w))), ("bv", w)])
+        else:
+            c = [("s", self.draw(self.st.integers(1, w))), ("bv", w)]
+            if w >= 2:
+                c += [("u", self.draw(self.st.integers(1, w - 1)))] * 2
+            src = self.pick(c)
+        return ["conv", self.pick(CONV_HOWS), k, w, self.sub(src, d)]
 
     def mk_view(self, ty, d):
         k, w = ty
